@@ -256,6 +256,8 @@ class Job:
         self.modname, self.h, self.case = modname, h, case
         self.mode, self.payload = mode, payload
         self.result = None
+        self.attempts = 0
+        self.died = False
 
     def start(self):
         ctxm = mp.get_context('fork')
@@ -272,6 +274,7 @@ class Job:
             try:
                 self.result = self.parent_conn.recv()
             except EOFError:
+                self.died = True
                 self.result = {'status': 'error',
                                'error': 'child died without result '
                                f'(exit {self.proc.exitcode})'}
@@ -281,6 +284,7 @@ class Job:
         if not self.proc.is_alive():
             if self.parent_conn.poll(0.2):
                 return self.poll()
+            self.died = True
             self.result = {'status': 'error',
                            'error': f'child died (exit {self.proc.exitcode})'}
             self._release()
@@ -314,6 +318,15 @@ def run_jobs(jobs, nproc=None, on_done=None):
         still = []
         for j in running:
             if j.poll():
+                if j.died and j.attempts < 2:
+                    # the worker process was killed from outside (seen on
+                    # loaded machines): the job is deterministic, run it
+                    # again
+                    j.attempts += 1
+                    j.died = False
+                    j.result = None
+                    pending.append(j)
+                    continue
                 done.append(j)
                 if on_done is not None:
                     pending.extend(on_done(j) or [])
